@@ -540,112 +540,86 @@ def check_guards(prog, check):
 
 
 def check_searches(prog, check, rule):
-    """market-like counterparty searches enforce exactly one match"""
+    """market-like counterparty searches enforce exactly one match.
+    A search is a loop over model objects in which a match criterion (code equality with an attribute of self, or
+    presence of a variable in the candidate's equation block) guards `sentinel = candidate` or `counter += 1`.
+    Decided by a state search over the flattened method: M = number of iterations in which the criterion held
+    (0, 1, 2 = several); no normal exit may be reached after the loop was entered with M != 1."""
+    from ..inline import flatten
+    from ..cfg import atomic_facts
+    from ..dataflow import truth_search, trace, OBJECT_ITER
     n = 0
-    for ci in prog.subclasses('Market'):
-        for fn in ci.methods.values():
-            for loop in [x for x in ast.walk(fn.node) if isinstance(x, ast.For)]:
-                lv = target_names(loop.target)
-                if len(lv) != 1:
+    for ci in prog.subclasses('Sector'):
+        for fn_raw in ci.methods.values():
+            fn = flatten(prog, fn_raw)
+            loops = [x for x in ast.walk(fn.node) if isinstance(x, ast.For) and isinstance(x.target, ast.Name) and OBJECT_ITER(x.iter)]
+            if not loops:
+                continue
+            g = None
+            for loop in loops:
+                s_ = loop.target.id
+                inside = set(id(x) for x in ast.walk(loop))
+
+                def match_kind(e, val):
+                    if val is not True or not isinstance(e, ast.Compare) or len(e.ops) != 1:
+                        return None
+                    l_, r_, op = e.left, e.comparators[0], e.ops[0]
+                    if isinstance(op, ast.Eq):
+                        for x, y in ((l_, r_), (r_, l_)):
+                            if isinstance(x, ast.Attribute) and x.attr == 'Code' and isinstance(x.value, ast.Name) and x.value.id == s_ \
+                                    and isinstance(y, ast.Attribute) and isinstance(y.value, ast.Name) and y.value.id == 'self':
+                                return 'code'
+                    if isinstance(op, ast.In) and any(isinstance(y, ast.Attribute) and y.attr == 'EquationBlock' and
+                                                      isinstance(y.value, ast.Name) and y.value.id == s_ for y in ast.walk(r_)):
+                        return 'presence'
+                    return None
+                # selecting statements
+                sel = [x for x in ast.walk(loop) if (isinstance(x, ast.Assign) and len(x.targets) == 1 and isinstance(x.targets[0], ast.Name)
+                                                      and isinstance(x.value, ast.Name) and x.value.id == s_) or
+                       (isinstance(x, ast.AugAssign) and isinstance(x.target, ast.Name) and isinstance(x.op, ast.Add) and
+                        isinstance(x.value, ast.Constant) and x.value.value == 1)]
+                if not sel:
                     continue
-                s = lv[0]
-                match_ifs = []
-                for x in ast.walk(loop):
-                    if isinstance(x, ast.If):
-                        t = x.test
-                        # s.Code == self.<attr>
-                        if isinstance(t, ast.Compare) and isinstance(t.ops[0], ast.Eq) and \
-                                isinstance(t.left, ast.Attribute) and t.left.attr == 'Code' and \
-                                isinstance(t.left.value, ast.Name) and t.left.value.id == s and \
-                                isinstance(t.comparators[0], ast.Attribute) and isinstance(t.comparators[0].value, ast.Name) \
-                                and t.comparators[0].value.id == 'self':
-                            match_ifs.append((x, 'code'))
-                        # '<name>' in s.EquationBlock...  selecting a sentinel (not accumulating)
-                        elif isinstance(t, ast.Compare) and isinstance(t.ops[0], ast.In) and \
-                                any(isinstance(y, ast.Attribute) and y.attr == 'EquationBlock' and isinstance(y.value, ast.Name)
-                                    and y.value.id == s for y in ast.walk(t.comparators[0])) and \
-                                any(isinstance(y, ast.Assign) and isinstance(y.value, ast.Name) and y.value.id == s
-                                    for y in ast.walk(x)):
-                            match_ifs.append((x, 'presence'))
-                if not match_ifs:
+                if g is None:
+                    g = cfgmod.build(fn)
+                kinds = set()
+                for x in sel:
+                    for test, outcome in g.conditions_at(g.node_of(x)):
+                        if id(test) in inside:
+                            for _, v, e in atomic_facts(test, outcome):
+                                k = match_kind(e, v)
+                                if k:
+                                    kinds.add(k)
+                if not kinds:
                     continue
-                check.saw(fn)
-                g = cfgmod.build(fn)
-                for mif, kind in match_ifs:
+                check.saw(fn_raw)
+                hdr = [h for h in g.nodes if h.kind == 'for' and h.stmt is loop][0]
+
+                def step(extra, node, lab, env, nxt, _loop=loop, _hdr=hdr, _mk=match_kind):
+                    M, seen_iter, entered = extra
+                    if node is _hdr:
+                        entered = 1
+                        if lab is True:
+                            seen_iter = 0
+                    if node.kind == 'test' and lab in (True, False) and _loop in node.loops and not seen_iter:
+                        if any(_mk(e, v) for _, v, e in atomic_facts(node.ast, lab)):
+                            # all criteria of the iteration must hold: judged on the test that carries the criterion
+                            M = min(2, M + 1)
+                            seen_iter = 1
+                    return (M, seen_iter, entered)
+                hits, seen = truth_search(g, [g.entry], [g.exit], extra0=(0, 0, 0), step=step)
+                finals = [k for k in seen if k[0] == g.exit.id and k[2][2] == 1]
+                zero = [k for k in finals if k[2][0] == 0]
+                many = [k for k in finals if k[2][0] == 2]
+                for kind in sorted(kinds):
                     n += 1
-                    ok0, ok2, how = cardinality(fn, g, loop, mif)
-                    check.ob(rule, '%s::search(%s)::raises-on-zero' % (fn.key, kind), ok0,
-                             '%s:%d' % (fn.module.rel, mif.lineno),
-                             how if ok0 else 'no match is accepted silently (%s)' % how,
+                    check.ob(rule, '%s::search(%s)::raises-on-zero' % (fn.key, kind), not zero, '%s:%d' % (fn.module.rel, loop.lineno),
+                             'no normal exit is reachable when no candidate matched' if not zero else
+                             'no match is accepted silently (lines %s)' % ','.join(str(x) for x in trace(seen, zero[0], g)),
                              'a market whose supplier / issuer code matches no sector')
-                    check.ob(rule, '%s::search(%s)::raises-on-many' % (fn.key, kind), ok2,
-                             '%s:%d' % (fn.module.rel, mif.lineno),
-                             how if ok2 else 'several matches are accepted silently (%s)' % how,
+                    check.ob(rule, '%s::search(%s)::raises-on-many' % (fn.key, kind), not many, '%s:%d' % (fn.module.rel, loop.lineno),
+                             'no normal exit is reachable when several candidates matched' if not many else
+                             'several matches are accepted silently (lines %s)' % ','.join(str(x) for x in trace(seen, many[0], g)),
                              'two sectors with the issuer code in one currency zone (federated regions)')
     if n < 3:
         raise AnalysisError('expected at least 3 market-like counterparty searches, found %d' % n)
-
-
-def cardinality(fn, g, loop, mif):
-    """recognise the two enforcement idioms: (a) counter incremented in the match branch + post-loop `!= 1 -> raise`
-    (or `== 0`/`< 1` and `> 1` tests); (b) None-sentinel: assign when None else raise; post-loop `is None -> raise`."""
-    body_names = set()
-    # (a) counter
-    counters = [x.target.id for st in mif.body for x in ast.walk(st) if isinstance(x, ast.AugAssign)
-                and isinstance(x.target, ast.Name) and isinstance(x.op, ast.Add) and lin_eq(linform(x.value), {'': 1})]
-    hdr = [n for n in g.nodes if n.kind == 'for' and n.stmt is loop][0]
-    after = g.reach([b for b, l in g.succ[hdr.id] if l is False], include_src=True)
-    for c in counters:
-        z = m = False
-        for t in g.nodes:
-            if t.kind == 'test' and t.id in after and loop not in t.loops and _mentions(t.ast, c):
-                tgt_t = g.reach([b for b, l in g.succ[t.id] if l is True], include_src=True)
-                tgt_f = g.reach([b for b, l in g.succ[t.id] if l is False], include_src=True)
-                e = t.ast
-                neg = False
-                if isinstance(e, ast.UnaryOp) and isinstance(e.op, ast.Not):
-                    e, neg = e.operand, True
-                if isinstance(e, ast.Compare) and isinstance(e.left, ast.Name) and e.left.id == c and len(e.ops) == 1:
-                    k = linform(e.comparators[0])
-                    if k is None or set(k) != {''}:
-                        continue
-                    k = k['']
-                    op = type(e.ops[0])
-                    raises_on = tgt_t if not neg else tgt_f
-                    if not (g.raise_exit.id in raises_on and g.exit.id not in raises_on):
-                        continue
-                    truth = lambda v: {ast.Eq: v == k, ast.NotEq: v != k, ast.Lt: v < k, ast.LtE: v <= k,
-                                       ast.Gt: v > k, ast.GtE: v >= k}.get(op, False)
-                    val = lambda v: truth(v) if not neg else not truth(v)
-                    if val(0) and not val(1):
-                        z = True
-                    if val(2) and val(3) and not val(1):
-                        m = True
-        if z or m:
-            return z, m, 'counter `%s` checked after the loop' % c
-    # (b) sentinel
-    sentinels = [x.targets[0].id for st in mif.body for x in ast.walk(st) if isinstance(x, ast.Assign)
-                 and isinstance(x.targets[0], ast.Name) and isinstance(x.value, ast.Name)
-                 and x.value.id in target_names(loop.target)]
-    for sname in sentinels:
-        many = False
-        for x in ast.walk(mif):
-            if isinstance(x, ast.If) and isinstance(x.test, ast.Compare) and isinstance(x.test.left, ast.Name) and \
-                    x.test.left.id == sname and isinstance(x.test.comparators[0], ast.Constant) and \
-                    x.test.comparators[0].value is None:
-                is_none = isinstance(x.test.ops[0], (ast.Is, ast.Eq))
-                other = x.orelse if is_none else x.body
-                if any(isinstance(y, ast.Raise) for st in other for y in ast.walk(st)):
-                    many = True
-        zero = False
-        for t in g.nodes:
-            if t.kind == 'test' and t.id in after and loop not in t.loops and isinstance(t.ast, ast.Compare) and \
-                    isinstance(t.ast.left, ast.Name) and t.ast.left.id == sname and \
-                    isinstance(t.ast.comparators[0], ast.Constant) and t.ast.comparators[0].value is None and \
-                    isinstance(t.ast.ops[0], (ast.Is, ast.Eq)):
-                r = g.reach([b for b, l in g.succ[t.id] if l is True], include_src=True)
-                if g.raise_exit.id in r and g.exit.id not in r:
-                    zero = True
-        if zero or many:
-            return zero, many, 'None-sentinel `%s`' % sname
-    return False, False, 'no cardinality enforcement recognised'
